@@ -1822,6 +1822,9 @@ func (nh *NodeHost) getShardInfo() []ShardInfo {
 }
 
 func (nh *NodeHost) tickWorkerMain() {
+	if verifEnabled {
+		return
+	}
 	tick := uint64(0)
 	idx := uint64(0)
 	nodes := make([]*node, 0)
@@ -1851,6 +1854,9 @@ func (nh *NodeHost) tickWorkerMain() {
 }
 
 func (nh *NodeHost) handleListenerEvents() {
+	if verifEnabled {
+		return
+	}
 	var ch chan struct{}
 	if nh.events.leaderInfoQ != nil {
 		ch = nh.events.leaderInfoQ.workReady()
@@ -1914,6 +1920,9 @@ func (nh *NodeHost) sendTickMessage(shards []*node, tick uint64) {
 }
 
 func (nh *NodeHost) nodeMonitorMain() {
+	if verifEnabled {
+		return
+	}
 	for {
 		nodes := make([]*node, 0)
 		nh.forEachShard(func(cid uint64, node *node) bool {
